@@ -22,7 +22,8 @@ pub const INPUTS: [&str; 9] = [
     ">> [mode]: components\n@a{1}\n>> [mode]: steps\nUse @a and @&a{2}.\n>> [duplicate]: ref\n",
     "Mix @flour{200%g} and #bowl.\n\nRest @&(~1)dough{} and @&flour{100%g} in #&bowl ~{1%h}.\n",
     ">> k: v\n@a{1/0} @|{}\n\nmore @b{2}\n",
-    "Bake at 180 C for 20 min or 350 F.\n",
+    // 45 bytes, no final newline, ends with a dash: in the reused buffer the byte behind it is the `-` that input 0 left there
+    "Bake at 180 C for 20 min or 350 F, and rest -",
     // same byte length as input 0 (parsed from the same reused buffer, i.e. same address and length) and recipe references
     "@milk{1 1/2%cup} @&milk{0.33%cup} @@abc{} @@abcd{} @@abcde{}\n",
     "= A\n> note é\n\nStep ~t{5%min}(x)\n== B ==\n@é{1}\n",
@@ -489,6 +490,15 @@ pub fn replay(case: &J) -> Vec<Violation> {
                 vec![]
             }
         }
+        "traced" => {
+            let before = ctx().has_violations();
+            traced(&reference);
+            if !before && ctx().has_violations() {
+                vec![Violation::new("result depends on a tracing subscriber being installed", "reproduced".to_string(), case.clone())]
+            } else {
+                vec![]
+            }
+        }
         "pull" => check_interleaved_pull(case["a"].as_u64().unwrap_or(0) as usize, case["b"].as_u64().unwrap_or(0) as usize, &mut local),
         "stress" => {
             init_stress_replay();
@@ -606,6 +616,9 @@ pub fn run(tier: Tier) {
     }
     cooklang::verif_hooks::set_yield(None);
     if !c.has_violations() {
+        traced(&reference);
+    }
+    if !c.has_violations() {
         stress_supplement(tier, &reference);
     }
     if !c.has_violations() {
@@ -614,6 +627,46 @@ pub fn run(tier: Tier) {
     c.note("states / transitions: history nodes plus scheduling points visited over all executions; traces_validated_against_impl: histories and complete schedules executed on the real parser");
     c.assume("threads are serialised by the explorer and switch only at the hook points (token pulled, event consumed) and at thread exit; races inside one token's processing and weak-memory effects are not explored");
     c.assume("the fresh-process reference is produced by this same binary started once per (configuration, input)");
+}
+
+/// a subscriber that enables every span and event (so that every field of every trace statement is evaluated)
+struct EverythingOn;
+impl tracing::Subscriber for EverythingOn {
+    fn enabled(&self, _: &tracing::Metadata<'_>) -> bool {
+        true
+    }
+    fn new_span(&self, _: &tracing::span::Attributes<'_>) -> tracing::span::Id {
+        tracing::span::Id::from_u64(1)
+    }
+    fn record(&self, _: &tracing::span::Id, _: &tracing::span::Record<'_>) {}
+    fn record_follows_from(&self, _: &tracing::span::Id, _: &tracing::span::Id) {}
+    fn event(&self, _: &tracing::Event<'_>) {}
+    fn enter(&self, _: &tracing::span::Id) {}
+    fn exit(&self, _: &tracing::span::Id) {}
+}
+
+/// every call once more on a thread whose tracing subscriber has all levels on: the observation must not
+/// depend on whether somebody listens to the library's trace output (run after the histories and schedules)
+fn traced(reference: &[Vec<String>]) {
+    let c = ctx();
+    let mut n = 0u64;
+    for cfg in 0..CFGS {
+        let p = parser_for(cfg);
+        for call in 0..CALLS {
+            let got = tracing::subscriber::with_default(EverythingOn, || guarded(|| observe(&p, call)).unwrap_or_else(|m| format!("PANIC {m}")));
+            n += 1;
+            if got != reference[cfg][call] {
+                c.violation(Violation::new(
+                    "result depends on a tracing subscriber being installed",
+                    format!("cfg {cfg} call {call} (input {} kind {}) under a subscriber with every level enabled differs from the fresh-process result; {}", call / KINDS, call % KINDS, diff_pos(&reference[cfg][call], &got)),
+                    json!({"kind": "traced", "cfg": cfg, "call": call}),
+                ));
+                return;
+            }
+        }
+    }
+    c.evaluations.fetch_add(n, std::sync::atomic::Ordering::Relaxed);
+    c.part(json!({"part": "calls repeated under a tracing subscriber with every level enabled", "calls": n}));
 }
 
 /// Supplement, NOT part of the exhaustive claim: free-running real threads
